@@ -32,10 +32,11 @@ type spec struct {
 	per     int    // datagrams per session
 	garbage bool
 	rebind  bool // session 0 changes its source port before its last datagram
+	sameIP  bool // all clients share one IP address and differ only in the source port
 }
 
 func (s spec) String() string {
-	return fmt.Sprintf("server=%s;batch=%s;targets=%s;n=%d;per=%d;garbage=%v;rebind=%v", s.server, s.batch, s.targets, s.n, s.per, s.garbage, s.rebind)
+	return fmt.Sprintf("server=%s;batch=%s;targets=%s;n=%d;per=%d;garbage=%v;rebind=%v;sameip=%v", s.server, s.batch, s.targets, s.n, s.per, s.garbage, s.rebind, s.sameIP)
 }
 
 func parse(p string) spec {
@@ -57,6 +58,8 @@ func parse(p string) spec {
 			s.garbage = v == "true"
 		case "rebind":
 			s.rebind = v == "true"
+		case "sameip":
+			s.sameIP = v == "true"
 		}
 	}
 	return s
@@ -138,6 +141,10 @@ func scenario(param string) vsched.Scenario {
 				}
 				cg.Go(func() {
 					c := env.NewClient(i, 0)
+					if sp.sameIP {
+						c.Close()
+						c = env.NewClientAt(i, 10, uint16(10+i))
+					}
 					for k := 0; k < sp.per; k++ {
 						if sp.rebind && i == 0 && k == sp.per-1 && sp.per > 1 {
 							c.Rebind(1)
@@ -299,22 +306,24 @@ func family(c *harness.Check) []string {
 				tk = []string{"ip"}
 			}
 			for _, t := range tk {
-				out = append(out, spec{sv, b, t, 2, 1, false, false}.String())
+				out = append(out, spec{sv, b, t, 2, 1, false, false, false}.String())
 				if c.Thorough() || t == "domain" {
-					out = append(out, spec{sv, b, t, 2, 2, false, false}.String())
-					out = append(out, spec{sv, b, t, 3, 1, false, false}.String())
+					out = append(out, spec{sv, b, t, 2, 2, false, false, false}.String())
+					out = append(out, spec{sv, b, t, 3, 1, false, false, false}.String())
 				}
 			}
 			if sv != "direct" {
 				// a tunnel server has no framing: every datagram is a valid payload for the fixed target
-				out = append(out, spec{sv, b, "ip", 1, 2, true, false}.String())
+				out = append(out, spec{sv, b, "ip", 1, 2, true, false, false}.String())
 				// a resolvable domain first, then datagrams to a name whose lookup fails
-				out = append(out, spec{sv, b, "domainfail", 1, 3, false, false}.String())
-				out = append(out, spec{sv, b, "domainfail", 2, 2, false, false}.String())
+				out = append(out, spec{sv, b, "domainfail", 1, 3, false, false, false}.String())
+				out = append(out, spec{sv, b, "domainfail", 2, 2, false, false, false}.String())
+				// two clients behind one IP address (a NAT): sessions must be told apart by port
+				out = append(out, spec{sv, b, "ip", 2, 2, false, false, true}.String())
 			}
 			if sv == "ss2022" {
-				out = append(out, spec{sv, b, "ip", 1, 2, false, true}.String())
-				out = append(out, spec{sv, b, "mixed", 2, 2, false, true}.String())
+				out = append(out, spec{sv, b, "ip", 1, 2, false, true, false}.String())
+				out = append(out, spec{sv, b, "mixed", 2, 2, false, true, false}.String())
 			}
 		}
 	}
